@@ -45,7 +45,7 @@ class Option(ABC):
             max_steps=self.max_steps,
             rng=rng
         )
-        if len(result) >= self.max_steps:
+        if not self.is_terminal(result.state[-1]):
             raise AlgorithmException(
                 f"{self} reached max steps ({self.max_steps}). " + \
                 "It may be stuck in a loop or max_steps needs to be increased"
